@@ -156,14 +156,14 @@ type c20Input struct {
 	Kind     string      `json:"kind"`               // run | join | domain
 	Mode     string      `json:"mode,omitempty"`     // new | apply
 	Allow    bool        `json:"allow,omitempty"`    // AllowLookup
-	Arg      string      `json:"arg,omitempty"`      // ptr | struct | nonstruct
+	Arg      string      `json:"arg,omitempty"`      // ptr | struct | nonstruct | nil (untyped nil) | nilptr (nil pointer to the struct)
 	Prefix   string      `json:"prefix"`             //
 	Declared []string    `json:"declared,omitempty"` // StoreConfig.Secrets
 	Fields   []c20Field  `json:"fields"`
 	Svc      []c20Secret `json:"svc,omitempty"` // what the service holds (version 1)
 	A        string      `json:"a,omitempty"`   // join
 	B        string      `json:"b,omitempty"`
-	What     string      `json:"what,omitempty"` // domain: nil-any | nil-structptr | nil-embedded-ptr
+	What     string      `json:"what,omitempty"` // domain: nil-embedded-ptr | set-embedded-ptr (nil-any, nil-structptr*: run cases since the F9 repair)
 }
 
 // ---- scripted service
@@ -416,6 +416,12 @@ func c20Exec(in c20Input) (rec Record) {
 		arg = ptr.Interface()
 	case "struct":
 		arg = ptr.Elem().Interface()
+	case "nil":
+		arg = nil // ParseFields(nil, ..) / Struct{Value: nil}
+		leaves = nil
+	case "nilptr":
+		arg = reflect.Zero(reflect.PointerTo(typ)).Interface() // (*T)(nil): the type is a struct pointer, there is no struct
+		leaves = nil
 	default:
 		arg = new(string)
 		leaves = nil // nothing to look at: the argument is not the struct
@@ -594,6 +600,10 @@ func c20Exec(in c20Input) (rec Record) {
 		a = "(AP " + c20CoqShape(in.Fields) + ")"
 	case "struct":
 		a = "(AS " + c20CoqShape(in.Fields) + ")"
+	case "nil":
+		a = "AZ"
+	case "nilptr":
+		a = "(AZP " + c20CoqShape(in.Fields) + ")"
 	default:
 		a = "AN"
 	}
@@ -703,7 +713,9 @@ func c20Tags(in c20Input, obs c20Obs, leaves []c20Leaf) []string {
 	return tags
 }
 
-// ---- inputs outside the property's domain (DESIGN.md section 6 candidates): recorded, not compared
+// ---- inputs outside the property's domain (a tagged field promoted through an embedded POINTER):
+// recorded, not compared.  The former candidates nil-any / nil-structptr / nil-structptr-untagged are
+// ordinary compared run cases since the F9 repair (arg kinds "nil" and "nilptr").
 
 type c20Emb struct {
 	A string `setec:"ea"`
@@ -720,12 +732,6 @@ func c20Domain(in c20Input) Record {
 		var f *setec.Fields
 		var err error
 		switch in.What {
-		case "nil-any":
-			f, err = setec.ParseFields(nil, in.Prefix)
-		case "nil-structptr":
-			f, err = setec.ParseFields((*c20Emb)(nil), in.Prefix)
-		case "nil-structptr-untagged":
-			f, err = setec.ParseFields((*C20Pt)(nil), in.Prefix)
 		case "nil-embedded-ptr":
 			type T struct{ *c20Emb }
 			f, err = setec.ParseFields(&T{}, in.Prefix)
@@ -874,11 +880,15 @@ func c20Generate(r *rand.Rand) c20Input {
 	if r.IntN(5) < 2 {
 		in.Mode = "new"
 	}
-	switch r.IntN(25) {
-	case 0:
+	switch r.IntN(50) {
+	case 0, 1:
 		in.Arg = "struct"
-	case 1:
+	case 2, 3:
 		in.Arg = "nonstruct"
+	case 4:
+		in.Arg = "nil"
+	case 5, 6:
+		in.Arg = "nilptr" // of any shape: tagged, untagged, badly tagged, empty
 	}
 	if r.IntN(10) >= 3 {
 		in.Prefix = c20CleanName(r, 3)
